@@ -144,8 +144,16 @@ func (s *Spec) SLRParsingTable() (*lr.ParsingTable, error) {
 
 // LALRParsingTable builds and returns the LALR(1) (Lookahead LR) parsing table
 // for the grammar and precedences in the spec.
-func (s *Spec) LALRParsingTable() (*lr.ParsingTable, error) {
-	T, err := lookahead.BuildParsingTable(s.Grammar, s.Precedences)
+func (s *Spec) LALRParsingTable() (T *lr.ParsingTable, err error) {
+	// The table builder panics on degenerate grammars, for example a cyclic grammar (A ⇒⁺ A)
+	// or a grammar with a non-terminal that derives no string of terminals.
+	defer func() {
+		if r := recover(); r != nil {
+			T, err = nil, fmt.Errorf("error on building LALR(1) parsing table:\nthe grammar is degenerate (cyclic, or with a non-terminal deriving no string of terminals): %v", r)
+		}
+	}()
+
+	T, err = lookahead.BuildParsingTable(s.Grammar, s.Precedences)
 	if err != nil {
 		return nil, fmt.Errorf("error on building LALR(1) parsing table:\n%s", err)
 	}
